@@ -36,6 +36,9 @@ type (
 	Signal     = os.Signal
 	SyscallErr = os.SyscallError
 	Process    = os.Process
+	ProcAttr   = os.ProcAttr
+	ProcState  = os.ProcessState
+	Root       = os.Root
 )
 
 const (
